@@ -602,6 +602,14 @@ def _hv_truth(prog):
     return hv_truth(prog)
 
 
+def _cond_fold(prog):
+    # a call with ordinary objects returns its plain result (a bool, a predicate instance); written as a condition it is folded like any
+    # other condition - and a predicate instance is judged by its verdict, when the query is evaluated
+    from .c01 import cond_fold
+
+    return cond_fold(prog)
+
+
 def run(prog: Program, tier: str) -> List[RuleResult]:
     from .c01 import ep_operand
     from .c02 import ep_bound
@@ -610,4 +618,4 @@ def run(prog: Program, tier: str) -> List[RuleResult]:
     return [guard(lambda: pred_align(prog)), guard(lambda: pred_dispatch(prog)), guard(lambda: pred_once(prog)), guard(lambda: pred_names(prog)), guard(lambda: pred_fresh(prog)), guard(lambda: lit_one(prog)), guard(lambda: arg_symbolic(prog)), guard(lambda: ep_operand(prog)),
             # a variable written in two positions of a call, or bound by an earlier conjunct, reaches the callable with its bound value -
             # whatever that value is: a falsy one taken for "not bound" is enumerated again and the callable runs with arguments that were never written together
-            guard(lambda: ep_bound(prog)), guard(lambda: _hv_truth(prog))]
+            guard(lambda: ep_bound(prog)), guard(lambda: _hv_truth(prog)), guard(lambda: _cond_fold(prog))]
